@@ -23,9 +23,9 @@ LEVEL = "model_checking"
 ASSUMPTIONS = [
     "OS file system replaced by ShimFS (contract in engine/shimfs.py): every access is logged with the raw path text; "
     "'outside the root' = normal form of a touched path is neither the root nor below it; symlinks are outside the claim",
-    "read-only part: 6-key universe pre-states (valid = parents present), key text free symbolic str |k|<=3 plus the universe keys, "
+    "read-only part: 7-key universe pre-states (valid = parents present), key text free symbolic str |k|<=3 plus the universe keys, "
     "payload free symbolic bytes |b|<=2, metadata value symbolic int, openbin mode by symbolic index over 13 write modes",
-    "containment part: keys of <=3 (quick) / <=4 (thorough) components int-coded over 5 classes x optional leading '/', "
+    "containment part: keys of <=3 (quick) / <=4 (thorough) components int-coded over 6 classes {name, '.', '..', '', '__metadata__', sibling-with-root-prefix-name} x optional leading '/', "
     "15 store operations, store reached directly / through a mount 'm' of a MountPointStore / through Context.evaluate_resource",
     "'refuses' = raises any Exception without having touched anything outside the root",
 ]
@@ -125,7 +125,7 @@ def ob_readonly_reads(pi: int) -> bool:
 
 
 # ---------------------------------------------------------------- containment
-COMP = ["n", ".", "..", "", "__metadata__"]
+COMP = ["n", ".", "..", "", "__metadata__", "rootx"]      # "rootx": a sibling directory whose name EXTENDS the root's name (/srv/root vs /srv/rootx)
 OPS = ["get_bytes", "get_metadata", "store", "store_metadata", "remove", "removedir", "removedir_recursive", "contains",
        "is_dir", "listdir", "makedir", "openbin_r", "openbin_w", "keys", "listdir_keys"]
 ROOT = sl.ROOT
@@ -203,7 +203,7 @@ class _Ctx(Context):
 
 def ob_contained(codes: List[int], leading: bool, op: int) -> bool:
     """
-    pre: 0 <= len(codes) <= part("maxlen") and all(0 <= c < 5 for c in codes)
+    pre: 0 <= len(codes) <= part("maxlen") and all(0 <= c < len(COMP) for c in codes)
     pre: op == part("op") and (part("leading") is None or leading == part("leading"))
     post: _
     """
@@ -243,7 +243,7 @@ def obligations(tier):
         for op in range(len(MUTATORS)):
             for ki in ([None] if op != 6 else list(range(len(sl.U)))):
                 obs.append(Ob("ob_readonly_universe", dict(backend=b, op=op, ki=ki), timeout=150 if q else 900, per_path=20,
-                              bounds="backend=%s mutator=%s; all %d valid 6-key pre-states x universe key %s x 13 write modes (openbin only)" % (
+                              bounds="backend=%s mutator=%s; all %d valid 7-key pre-states x universe key %s x 13 write modes (openbin only)" % (
                                   bn, MUTATORS[op], len(sl.VALID), "any" if ki is None else sl.U[ki])))
             obs.append(Ob("ob_readonly_freekey", dict(backend=b, op=op), timeout=150 if q else 900, per_path=20,
                           bounds="backend=%s mutator=%s; all %d valid pre-states x free symbolic key |k|<=3, payload |b|<=2, metadata int, 13 write modes (openbin only)" % (
@@ -255,5 +255,5 @@ def obligations(tier):
         ops = range(len(OPS)) if via != "resource" else [0, 0]
         for j, op in enumerate(ops):
             obs.append(Ob("ob_contained", dict(via=via, op=op, maxlen=maxlen, leading=(None if via != "resource" else bool(j))), timeout=150 if q else 1200, per_path=20,
-                          bounds="via=%s op=%s; keys of <=%d components over 5 classes x leading '/'" % (via, OPS[op] if via != "resource" else "evaluate_resource", maxlen)))
+                          bounds="via=%s op=%s; keys of <=%d components over 6 classes x leading '/'" % (via, OPS[op] if via != "resource" else "evaluate_resource", maxlen)))
     return obs
